@@ -11,6 +11,11 @@ CHECKS = {
  },
 }
 CHECKS.update({
+ 'C13': {
+  'text': 'Partial proof (this property was first judged not applicable; bringing Tokenizer<T: AsRef<str>> under Verus with an external-trait declaration for AsRef changed that): Tokenizer::next, chomp_next_token, chomp_leading_whitespace and chomp_one_or_two_characters are verified on their real text: every token range is [cursor after the blank chomp, cursor after the matcher), non-empty, inside the line, begins on a non-blank byte, only blanks lie between the previous cursor and its start; a tokenization error carries a position inside the line at or after the token start and stops the tokenizer; a lemma over two next() calls gives strict ordering and non-overlap. Punctuation tokens end on a non-blank byte and follow their first byte.',
+  'note': 'The other matchers are assumed contracts (two of them Kani-checked, bounded). Character boundaries, end-on-non-blank for every token kind and the re-tokenization clause are undecided.',
+  'technique': 'Verus contracts on the real tokenizer driver + punctuation matcher; Kani bounded harnesses for keyword / numeral matchers',
+ },
  'C06': {
   'text': 'Partial proof, per operator tier: Verus proves on the real analyzer functions that whenever a tier applied one of its operators the static kind it returns is Number (unary + - NOT; ^; * /; + -; the six comparisons; AND; OR - via a ghost operator counter, loop invariant and an assertion before the tail expression), and Kani proves on the real evaluator functions that the same operators always produce a number (or fail exactly on the operand kinds the analyzer rejects). Name-suffix kind rules of analyzer (ValueType::from_variable_name) and interpreter (Value::validate_type_matches_variable_name) are the same function of the last byte (Kani, bounded name length). The jump-target test is has(n) on both sides.',
   'note': 'Operand parsing below the unary tier is an assumed contract; statement-level agreement is undecided. The disagreement this check found on the original tree (comparison/AND/OR/NOT returned the left operand kind) is repaired by a fix: commit and recorded in known_findings.json.',
@@ -78,7 +83,6 @@ CHECKS.update({
  },
 })
 NOT_APPLICABLE = {
- 'C13': 'token ranges are assembled in Tokenizer::next/chomp_next_token: Verus cannot type Tokenizer<T: AsRef<str>> and str byte reasoning, CBMC does not finish symbolic execution of next() even on 6-byte lines (DESIGN §10); no contract within reach decides it',
  'C14': 'every anchored mechanism is core::fmt Display, f64 printing/parsing and the full tokenizer; neither verifier models them, a contract could only restate the round trip as an axiom',
  'C15': 'compares two process-level I/O modes of abasic-cli (clap, rustyline, std::fs, stdout); load_source_file is format!/colored glue outside both verifiers',
  'C17': 'four-configuration relational property over whole-program runs; the gating code is interleaved with format! inside generic AsRef<str> evaluators that neither verifier can take',
